@@ -21,13 +21,43 @@ from . import interp as ip
 def smax(a, b):
     if isinstance(a, int) and isinstance(b, int):
         return max(a, b)
+    k = known(S.lift(a) >= S.lift(b))
+    if k is not None:
+        return a if k else b
     return s_if(S.lift(a) >= S.lift(b), a, b)
 
 
 def smin(a, b):
     if isinstance(a, int) and isinstance(b, int):
         return min(a, b)
+    k = known(S.lift(a) <= S.lift(b))
+    if k is not None:
+        return a if k else b
     return s_if(S.lift(a) <= S.lift(b), a, b)
+
+
+_CTX = [None]      # current State (set by the interpreter entry points of this module) for term simplification
+
+
+def set_ctx(st):
+    _CTX[0] = st
+
+
+def known(cond):
+    """True / False when the path condition decides the comparison, else None"""
+    st = _CTX[0]
+    if isinstance(cond, bool):
+        return cond
+    c = cond.concrete()
+    if c is not None:
+        return bool(c)
+    if st is None:
+        return None
+    if st.entails(cond):
+        return True
+    if st.entails(s_not(cond)):
+        return False
+    return None
 
 
 def conc(x):
@@ -42,12 +72,15 @@ def conc(x):
 class CBuf(object):
     _n = itertools.count()
 
-    def __init__(self, shape, f, dtype=None, name=None):
+    def __init__(self, shape, f, dtype=None, name=None, support=None):
         self.shape = tuple(conc(s) for s in shape)
         self.f = f
         self.dtype = dtype
         self.name = name or 'cbuf%d' % next(CBuf._n)
         self.writeable = True
+        # sparse-support descriptor (over-approximation): None = dense / unknown, else a list of
+        # (condition, buffer index tuple): the contents are zero except possibly at those indices
+        self.support = support
 
     def at(self, idx):
         return self.f(tuple(idx))
@@ -199,6 +232,10 @@ class _Flags(object):
     def pv_getattr(self, I, fr, name):
         if name == 'writeable':
             return self.a.buf.writeable
+        if name in ('c_contiguous', 'contiguous'):
+            return True
+        if name == 'f_contiguous':
+            return self.a.ndim <= 1
         raise Unsupported('flags.%s of a closure array' % name)
 
 
@@ -287,7 +324,62 @@ def reader(I, fr, x, shape):
     raise Unsupported('closure-array operand %r' % (x,))
 
 
+def view_support(a, shape=None):
+    """support of a view in *view* coordinates: list of (cond, view index tuple) or None.
+    Only for views with unit steps and no broadcasting against a larger shape."""
+    sup = a.buf.support
+    if sup is None:
+        return None
+    if shape is not None and len(shape) != a.ndim:
+        return None
+    out = []
+    for cond, p in sup:
+        conds = [cond]
+        q = []
+        for k, v in a.fixed.items():
+            conds.append(core.sc_eq(p[k], v))
+        for ax in a.axes:
+            if ax is None:
+                q.append(0)
+                continue
+            if ax.step not in (1, -1):
+                return None
+            l = (S.lift(p[ax.baxis]) - S.lift(ax.start)) * ax.step
+            conds.append(s_and(l >= 0, l < S.lift(ax.length)))
+            q.append(conc(l))
+        out.append((s_and(*conds), tuple(q)))
+    return out
+
+
+def ufunc_support(op, args, shape):
+    arrs = [a for a in args if isinstance(a, CArr)]
+    def same_shape(sa, sb):
+        if len(sa) != len(sb):
+            return False
+        for x, y in zip(sa, sb):
+            if isinstance(x, int) and isinstance(y, int):
+                if x != y:
+                    return False
+            elif known(core.sc_eq(x, y)) is not True:
+                return False
+        return True
+    sups = [view_support(a, shape) if same_shape(a.shape, shape) else None for a in arrs]
+    if op in ('mul',):
+        for s_ in sups:
+            if s_ is not None:
+                return s_
+        return None
+    if op in ('truediv',) and isinstance(args[0], CArr):
+        return sups[0]
+    if op in ('add', 'sub') and len(arrs) == len(args) and all(s_ is not None for s_ in sups):
+        return sups[0] + sups[1]
+    if op in ('neg',):
+        return sups[0]
+    return None
+
+
 def ufunc(I, fr, op, args, out=None):
+    set_ctx(fr.st)
     arrs = [a for a in args if isinstance(a, CArr)]
     if not arrs:
         raise EngineError('ufunc without closure array')
@@ -296,7 +388,7 @@ def ufunc(I, fr, op, args, out=None):
     fn = _FNS[op]
     f = memo(lambda idx: fn(*[r(idx) for r in rds]))
     dt = next((a.buf.dtype for a in arrs if a.buf.dtype is not None), None)
-    res = CArr(CBuf(shape, f, dt))
+    res = CArr(CBuf(shape, f, dt, support=ufunc_support(op, args, shape)))
     if out is not None:
         assign(I, fr, out, res)
         return out
@@ -305,7 +397,7 @@ def ufunc(I, fr, op, args, out=None):
 
 def materialise(a):
     snap = a.snapshot()
-    return CArr(CBuf(a.shape, memo(snap), a.buf.dtype))
+    return CArr(CBuf(a.shape, memo(snap), a.buf.dtype, support=view_support(a)))
 
 
 def swapaxes(a, i, j):
@@ -352,12 +444,20 @@ def norm_slice(sl, n):
         if isinstance(b, int):
             bb = (S.lift(n) + b) if b < 0 else S.lift(b)
         else:
-            bb = s_if(S.lift(b) < 0, S.lift(b) + S.lift(n), b)
-        return conc(smax(lo, smin(bb, hi)))
+            neg = known(S.lift(b) < 0)
+            if neg is True:
+                bb = S.lift(b) + S.lift(n)
+            elif neg is False:
+                bb = S.lift(b)
+            else:
+                bb = s_if(S.lift(b) < 0, S.lift(b) + S.lift(n), b)
+        return conc(smax(lo, smin(conc(bb), hi)))
     if step > 0:
         s0 = 0 if start is None else clamp(start, 0, n)
         s1 = n if stop is None else clamp(stop, 0, n)
-        span = conc(smax(S.lift(s1) - S.lift(s0), 0)) if not (isinstance(s0, int) and isinstance(s1, int)) else max(s1 - s0, 0)
+        span = conc(smax(conc(S.lift(s1) - S.lift(s0)), 0)) if not (isinstance(s0, int) and isinstance(s1, int)) else max(s1 - s0, 0)
+        if isinstance(span, S):
+            span = conc(S(z3.simplify(span.t)))
         if step == 1:
             length = span
         else:
@@ -367,12 +467,15 @@ def norm_slice(sl, n):
         nm1 = n - 1 if isinstance(n, int) else conc(S.lift(n) - 1)
         s0 = nm1 if start is None else clamp(start, -1, nm1)
         s1 = -1 if stop is None else clamp(stop, -1, nm1)
-        length = max(s0 - s1, 0) if isinstance(s0, int) and isinstance(s1, int) else conc(smax(S.lift(s0) - S.lift(s1), 0))
+        length = max(s0 - s1, 0) if isinstance(s0, int) and isinstance(s1, int) else conc(smax(conc(S.lift(s0) - S.lift(s1)), 0))
+        if isinstance(length, S):
+            length = conc(S(z3.simplify(length.t)))
         return s0, -1, length
     raise Unsupported('negative slice step other than -1')
 
 
 def index(I, fr, a, idx, for_store=False):
+    set_ctx(fr.st)
     if not isinstance(idx, tuple):
         idx = (idx,)
     # expand Ellipsis
@@ -419,6 +522,7 @@ def index(I, fr, a, idx, for_store=False):
 
 def assign(I, fr, tgt, val):
     """tgt[...] = val   (val: closure array, scalar); rhs captured first (K1)"""
+    set_ctx(fr.st)
     if not tgt.buf.writeable:
         raise ip.PyRaise(I.make_exc('ValueError', 'assignment destination is read-only'))
     tshape = tgt.shape
@@ -430,6 +534,8 @@ def assign(I, fr, tgt, val):
             e, t = vs[k], tshape[len(tshape) - len(vs) + k]
             if isinstance(e, int) and e == 1:
                 continue
+            if not isinstance(e, int) and known(core.sc_eq(e, t)) is not True and known(core.sc_eq(e, 1)) is True:
+                continue        # symbolic extent that is 1 on this path: broadcasts
             if not require_equal(fr, e, t, 'assignment'):
                 raise ip.PyRaise(I.make_exc('ValueError', 'could not broadcast input array from shape into shape'))
         rd = reader(I, fr, val, tshape)
@@ -437,6 +543,29 @@ def assign(I, fr, tgt, val):
         rd = lambda idx: val
     else:
         raise Unsupported('closure-array assignment from %r' % (val,))
+    # support of the buffer after the store (over-approximation)
+    if tgt.buf.support is not None:
+        if isinstance(val, CArr):
+            vs_ = view_support(val) if len(val.shape) == len(tshape) else None
+            if vs_ is None:
+                tgt.buf.support = None
+            else:
+                pts = []
+                for cond, q in vs_:
+                    b = [None] * len(tgt.buf.shape)
+                    for k, v in tgt.fixed.items():
+                        b[k] = v
+                    ok = True
+                    for ax, qi in zip(tgt.axes, q):
+                        if ax is None:
+                            continue
+                        b[ax.baxis] = conc(S.lift(ax.start) + ax.step * S.lift(qi))
+                    pts.append((cond, tuple(b)))
+                tgt.buf.support = list(tgt.buf.support) + pts
+        else:
+            zero = (isinstance(val, (int, float)) and val == 0)
+            if not zero:
+                tgt.buf.support = None
     old = tgt.buf.f
     axes, fixed, nb = tgt.axes, tgt.fixed, len(tgt.buf.shape)
 
@@ -491,11 +620,82 @@ def fresh_array(name, shape, dtype=None, kind='real'):
 
 
 def const_array(value, shape, dtype=None):
-    return CArr(CBuf(shape, lambda idx: value, dtype))
+    zero = isinstance(value, (int, float)) and value == 0
+    return CArr(CBuf(shape, lambda idx: value, dtype, support=[] if zero else None))
 
 
 def delta_array(shape, j, dtype=None):
     """delta_j: 1 at index tuple j, 0 elsewhere"""
     def f(idx):
         return s_if(s_and(*[core.sc_eq(a, b) for a, b in zip(idx, j)]), 1.0, 0.0)
-    return CArr(CBuf(shape, memo(f), dtype))
+    return CArr(CBuf(shape, memo(f), dtype, support=[(S(z3.BoolVal(True)), tuple(j))]))
+
+
+def list_array(values, dtype=None):
+    """1-d array from a python list of scalars"""
+    vals = list(values)
+
+    def f(idx):
+        i = idx[0]
+        if isinstance(i, int):
+            return vals[i]
+        r = vals[-1]
+        for k in range(len(vals) - 2, -1, -1):
+            r = s_if(core.sc_eq(i, k), vals[k], r)
+        return r
+    return CArr(CBuf((len(vals),), f, dtype))
+
+
+def arange(start, stop, dtype=None):
+    """np.arange(start, stop): length max(stop - start, 0), entries start + i"""
+    length = conc(smax(S.lift(stop) - S.lift(start), 0)) if not (isinstance(start, int) and isinstance(stop, int)) else max(stop - start, 0)
+    return CArr(CBuf((length,), lambda idx: conc(S.lift(start) + S.lift(idx[0])) + 0.0, dtype))
+
+
+def diff(I, fr, a, axis):
+    """np.diff(a, n=1, axis)"""
+    n = a.shape[axis]
+    hi = [slice(None)] * a.ndim
+    lo = [slice(None)] * a.ndim
+    hi[axis] = slice(1, None)
+    lo[axis] = slice(None, -1)
+    return ufunc(I, fr, 'sub', [index(I, fr, a, tuple(hi)), index(I, fr, a, tuple(lo))])
+
+
+def sum_axis(I, fr, a, axis, keepdims):
+    """np.sum(a, axis=axis, keepdims=...) for an array with a sparse-support descriptor (delta trick): the sum
+    over a symbolic-length axis is the finite sum over the support points that fall into the view"""
+    sup = view_support(a)
+    if sup is None:
+        n = a.shape[axis]
+        if isinstance(n, int) and n <= 8:
+            terms = []
+            for i in range(n):
+                sl = [slice(None)] * a.ndim
+                sl[axis] = slice(i, i + 1) if keepdims else i
+                terms.append(index(I, fr, a, tuple(sl)))
+            acc = terms[0]
+            for t in terms[1:]:
+                acc = ufunc(I, fr, 'add', [acc, t])
+            return acc
+        raise Unsupported('np.sum over a symbolic-length axis of a dense closure array')
+    snap = a.snapshot()
+    shape = list(a.shape)
+    shape[axis] = 1
+
+    def f(idx):
+        acc = S.lift(0.0)
+        for cond, q in sup:
+            conds = [cond]
+            for k in range(len(shape)):
+                if k != axis:
+                    conds.append(core.sc_eq(idx[k], q[k]))
+            acc = acc + s_if(s_and(*conds), snap(q), 0.0)
+        return acc
+    nsup = [(c, tuple(0 if k == axis else q[k] for k in range(len(shape)))) for c, q in sup]
+    res = CArr(CBuf(tuple(shape), memo(f), a.buf.dtype, support=nsup))
+    if not keepdims:
+        sl = [slice(None)] * len(shape)
+        sl[axis] = 0
+        return index(I, fr, res, tuple(sl))
+    return res
